@@ -259,6 +259,15 @@ func CBufUint64(name string, n int) unsafe.Pointer {
 	return cbuf(name, n, 8, func(i int, p unsafe.Pointer) { *(*uint64)(p) = Uint64(fmt.Sprintf("%s[%d]", name, i)) })
 }
 
+// CBufInt / CBufUint: the C element type genny maps Go int/uint to is the 32-bit C.int/C.uint;
+// the buffer therefore has 4-byte elements and values in the 32-bit range.
+func CBufInt(name string, n int) unsafe.Pointer {
+	return cbuf(name, n, 4, func(i int, p unsafe.Pointer) { *(*int32)(p) = Int32(fmt.Sprintf("%s[%d]", name, i)) })
+}
+func CBufUint(name string, n int) unsafe.Pointer {
+	return cbuf(name, n, 4, func(i int, p unsafe.Pointer) { *(*uint32)(p) = Uint32(fmt.Sprintf("%s[%d]", name, i)) })
+}
+
 // UF1..3: uninterpreted functions.  In a replay the function is the piecewise-linear
 // interpolant (nearest recorded point for several arguments) of the call table that the solver's
 // model assigned; without a replay file it is a fixed arbitrary mixing function.
